@@ -363,7 +363,14 @@ func RAltMerge(c *core.Ctx) {
 		okMerge := false
 		for i := len(stack) - 2; i >= 0; i-- {
 			if blk, ok := stack[i].(*ast.BlockStmt); ok {
-				okMerge = len(core.CallsIn(info, blk, addSet)) > 0
+				// the merge must be a statement of this very block, not of a nested branch
+				for _, st := range blk.List {
+					if es, ok := st.(*ast.ExprStmt); ok {
+						if call, ok := es.X.(*ast.CallExpr); ok && core.IsCallTo(info, call, addSet) {
+							okMerge = true
+						}
+					}
+				}
 				break
 			}
 		}
